@@ -892,8 +892,11 @@ impl Model {
                         }
                     } else {
                         // failure: which statuses are acceptable?
+                        // C07 is stated for every CAS field: a value that is certainly no decimal u64
+                        // is answered 'non-numeric value', whatever CAS the request carries (C02's
+                        // 'key exists' is for a mutation that fails because of its CAS)
                         let mut acceptable: Vec<u16> = vec![];
-                        if !cas_ok {
+                        if !cas_ok && !matches!(num, Num::No) {
                             acceptable.push(st::EXISTS);
                         }
                         match num {
